@@ -24,7 +24,7 @@ CONSTANTS Signers,      \* signers that rules may name
           Supplied,     \* the signer sets offered to a check (subsets of Signers \cup Unknown)
           InitRules,    \* choices for the constructor: sets of signer and policy names
           RSets,        \* the same for add_rule; "dup" repeats the first signer in the list
-          VUoffs,       \* valid_until offered: 99 = None, otherwise ledger-of-the-call + offset
+          VUoffs,       \* valid_until offered: 99 = None, otherwise ledger-of-the-call + offset - 10
           DTs,          \* ledgers advanced before a management call
           CheckDTs,     \* ledgers advanced before the check
           BadMode,      \* "any": every single supplied signer may carry the invalid signature; "one": one fixed choice
@@ -187,7 +187,7 @@ ObsOf(s) ==
 Op(kind) == [op |-> kind, dt |-> 0, id |-> -1, ct |-> "", vu |-> NoVu, name |-> "", signers |-> <<>>, pols |-> {},
              s |-> "", p |-> "", k |-> 0, rf |-> FALSE, sigs |-> {}, bad |-> {}, ctxs |-> <<>>]
 
-VuAt(off, t) == IF off = 99 THEN NoVu ELSE t + off
+VuAt(off, t) == IF off = 99 THEN NoVu ELSE t + off - 10
 SomeExpiry == \E i \in DOMAIN st.meta : st.meta[i].vu # NoVu
 BadChoices(S) == IF BadMode = "any" THEN {{}} \cup {{x} : x \in S}
                  ELSE {{}} \cup (IF S = {} THEN {} ELSE {{CHOOSE x \in S : TRUE}})
